@@ -312,7 +312,8 @@ func runHist(vectors, out string, shards, only int) {
 				pu := mkUsed().probe(w.vals[pv], w.valid[pv])
 				pf := fresh.probe(w.vals[pv], w.valid[pv])
 				probes = append(probes, proj.M{"eu": proj.Octets(pu.out), "ef": proj.Octets(pf.out), "eerru": pu.eerr, "eerrf": pf.eerr,
-					"du": P.Project(pu.r).JSON(), "df": P.Project(pf.r).JSON(), "derru": pu.derr, "derrf": pf.derr})
+					"du": P.Project(pu.r).JSON(), "df": P.Project(pf.r).JSON(), "derru": pu.derr, "derrf": pf.derr,
+					"hasv": b2i(kind != "dec"), "v": P.Project(w.vals[pv]).JSON(), "T": P.Types})
 				// a failing probe: garbage in, error-ness must agree as well
 				gu := mkUsed().probe(w.bad[2], w.garbage[pv])
 				gf := newHistInstance(kind, w).probe(w.bad[2], w.garbage[pv])
